@@ -28,6 +28,36 @@ type Attr struct {
 // UnmarshalXML is a custom unmarshal function used by xml.Unmarshal to
 // transform generic XML content into hierarchical Node structure.
 func (n *Node) UnmarshalXML(d *xml.Decoder, start xml.StartElement) error {
+	// The tree is built with an explicit stack instead of one nested DecodeElement per level:
+	// the nesting depth of what a peer sends must not be bounded by the goroutine stack only
+	// (each nested call restarted the depth guard of encoding/xml).
+	n.open(start)
+	stack := []*Node{n}
+	for len(stack) > 0 {
+		t, err := d.Token()
+		if err != nil {
+			return err
+		}
+		top := stack[len(stack)-1]
+		switch tt := t.(type) {
+		case xml.StartElement:
+			// Appending may move the children of top, but none of them is on the stack any more.
+			top.Nodes = append(top.Nodes, Node{})
+			child := &top.Nodes[len(top.Nodes)-1]
+			child.open(tt)
+			stack = append(stack, child)
+		case xml.CharData:
+			top.Content += string(tt)
+		case xml.EndElement:
+			stack = stack[:len(stack)-1]
+		}
+	}
+	return nil
+}
+
+// open sets the name and the attributes of a node from its start tag.
+func (n *Node) open(start xml.StartElement) {
+	n.XMLName = start.Name
 	// Assign	"n.Attrs = start.Attr", without repeating xmlns in attributes:
 	for _, attr := range start.Attr {
 		// Do not repeat xmlns, it is already in XMLName
@@ -35,8 +65,6 @@ func (n *Node) UnmarshalXML(d *xml.Decoder, start xml.StartElement) error {
 			n.Attrs = append(n.Attrs, attr)
 		}
 	}
-	type node Node
-	return d.DecodeElement((*node)(n), &start)
 }
 
 // MarshalXML is a custom XML serializer used by xml.Marshal to serialize a
